@@ -87,7 +87,38 @@ def array_sum(arr, where="sum"):
     at = arr._snapshot_at()
     memo[key] = (S, arr)
     ses.ghost.setdefault("sums", []).append((at, n, S))
+    # sum rules (harness-provided closed-form candidates): lemma sum-induction, premises = hint obligations
+    for rule in ses.ghost.get("sum_rules", []):
+        done = False
+        for label, closed in rule(at, n):
+            k = ses.fresh("k", "Int")
+            with T.no_safety():
+                base = T.treal(closed(0)) == 0
+                step = z3.Implies(z3.And(k >= 0, k < T.tz(n)),
+                                  T.treal(closed(k + 1)) - T.treal(closed(k)) == T.treal(at(k)))
+            if _quick_valid(ses, z3.And(base, step)):
+                from .hints import _hint_obligation
+                _hint_obligation("sum-induction/%s/base" % label, base)
+                _hint_obligation("sum-induction/%s/step" % label, step)
+                with T.no_safety():
+                    ses.add_fact(S == T.treal(closed(T.tz(n))))
+                ses.notes.append("lemma sum-induction used for " + label)
+                done = True
+                break
+        if done:
+            break
     return S
+
+
+def _quick_valid(ses, f, ms=1500):
+    sol = z3.Solver()
+    sol.set("timeout", ms)
+    for x in ses.facts:
+        sol.add(x)
+    for x in ses.pc:
+        sol.add(x)
+    sol.add(z3.Not(f))
+    return sol.check() == z3.unsat
 
 
 class SymMatrix:
@@ -292,14 +323,11 @@ def make_numpy(interp):
         a, b = T.lit(a), T.lit(b)
         if isinstance(m, Fraction):
             m = int(m)
-        if endpoint:
-            T.oblige_safety("linspace:at-least-two-points", T.ge(m, 2))
-            den = T.sub(m, 1)
-        else:
-            T.oblige_safety("linspace:at-least-one-point", T.ge(m, 1))
-            den = m
+        T.oblige_safety("linspace:nonnegative-count", T.ge(m, 0))
+        den = T.sub(m, 1) if endpoint else m
+        # numpy: step = (b-a)/div when div > 0 (a single point or an empty array needs no step)
         with T.no_safety():
-            step = T.div(T.sub(b, a), den)
+            step = T.ite(T.gt(den, 0), T.div(T.sub(b, a), T.ite(T.gt(den, 0), den, 1)), 0)
         return SymArray(m, lambda i: T.add(a, T.mul(i, step)), name="linspace")
 
     def append(x, y):
